@@ -102,6 +102,9 @@ class Classifier:
             pos = self._unpack_from_raw_items(e.id)
             if pos is not None:
                 return ("value", "key of raw items()") if pos == 0 else ("RAW", f"{e.id} (value of raw items())")
+            pk = self._unpack_from_private(e.id, depth)
+            if pk is not None:
+                return pk
             for k, v in self.defs.get(e.id, []):
                 if k == "param":
                     if self._is_raw_callback_param(e.id):
@@ -174,6 +177,11 @@ class Classifier:
                     return ("wrapped", "") if has else ("NOFLAGS", norm(e))
                 if nm in FACADES:
                     return ("facade", nm)
+                if nm == "map" and len(e.args) == 2 and isinstance(e.args[0], ast.Lambda) and len(e.args[0].args.args) == 1:
+                    lam = e.args[0]
+                    ek = self._element_kinds(e.args[1], depth)
+                    if ek is not None and isinstance(lam.body, ast.Subscript) and isinstance(lam.body.value, ast.Name) and lam.body.value.id == lam.args.args[0].arg and isinstance(lam.body.slice, ast.Constant) and isinstance(lam.body.slice.value, int) and 0 <= lam.body.slice.value < len(ek):
+                        return ek[lam.body.slice.value]  # map(lambda x: x[i], helper()): the i-th component
                 if nm in SAFE_BUILTINS:
                     return worst([self.classify(a, depth + 1) for a in e.args] or [("value", "")])
                 if nm == "getattr":
@@ -200,6 +208,12 @@ class Classifier:
                 if info:
                     return ("derived", "factory " + info[0])
             rb = self.classify(recv, depth + 1) if recv is not None else ("value", "")
+            if rb[0] == "self" and self.cls is not None and _unknown_private(self.P, self.cls, nm) is not None:
+                # a new private helper of the class: what it hands to its callers is what the call evaluates to
+                hfi = _unknown_private(self.P, self.cls, nm)
+                inner = Classifier(self.P, hfi)
+                vals = [inner.classify(v_, depth + 1) for how_, v_, st_ in handed_out(hfi)]
+                return worst(vals) if vals else ("value", "")
             if rb[0] == "self":
                 return ("derived", norm(e.func))
             return rb if rb[0] in ("RAW", "ROOT", "NOFLAGS", "unknown") else ("derived" if rb[0] in ("derived", "wrapped", "localparent") else "value", norm(e.func))
@@ -226,10 +240,47 @@ class Classifier:
                         return i
         return None
 
+    def _element_kinds(self, call: ast.AST, depth):
+        """for `self.<new private helper>()` that hands out tuples: kinds per tuple position (None if not applicable)"""
+        if not (isinstance(call, ast.Call) and isinstance(call.func, ast.Attribute) and norm(call.func.value) == self.selfname and self.cls is not None):
+            return None
+        hfi = _unknown_private(self.P, self.cls, call.func.attr)
+        if hfi is None:
+            return None
+        vals = [v_ for how_, v_, st_ in handed_out(hfi)]
+        if not vals or not all(isinstance(v_, ast.Tuple) for v_ in vals) or len({len(v_.elts) for v_ in vals}) != 1:
+            return None
+        inner = Classifier(self.P, hfi)
+        return [worst([inner.classify(v_.elts[i], depth + 1) for v_ in vals]) for i in range(len(vals[0].elts))]
+
+    def _unpack_from_private(self, name, depth):
+        for x in walk_local(self.fi.node):
+            if isinstance(x, (ast.For, ast.comprehension)) and isinstance(x.target, ast.Tuple):
+                ek = self._element_kinds(x.iter, depth)
+                if ek is not None and len(ek) == len(x.target.elts):
+                    for i, el in enumerate(x.target.elts):
+                        if isinstance(el, ast.Name) and el.id == name:
+                            return ek[i]
+        return None
+
     def classify_iter(self, it: ast.AST, depth):
         """Elements of an iterable."""
         k = self.classify(it, depth)
         return k
+
+
+def _unknown_private(P, cls, name):
+    """the method `name` of the class if it is private and not a function of the pinned tree (new internal helper)"""
+    if not name or not name.startswith("_") or name.startswith("__"):
+        return None
+    r = P.lookup_method(cls.qual, name)
+    if r is None:
+        return None
+    from mdsa.inline import load_known
+
+    known = load_known() or set()
+    fi = r[1]
+    return fi if getattr(fi, "qual", None) and fi.qual not in known else None
 
 
 SEVERITY = ["value", "param", "self", "wrapped", "derived", "facade", "localparent", "rawattrs", "passthrough", "unknown", "NOFLAGS", "ROOT", "RAW"]
@@ -267,6 +318,14 @@ def r1_navigation(P, rep, ctx):
             scope += list(m.nested.values())
     for fi in scope:
         if fi.name in ("__init__", "__repr__", "__dir__", "_parse_access_flags", "_child_node_kwargs", "__exit__"):
+            continue
+        top = fi
+        while top.parent is not None:
+            top = top.parent
+        if top.cls is not None and _unknown_private(P, top.cls, top.name) is top:
+            # internal helper that is not part of the pinned tree: not a navigation primitive; what it hands to its callers
+            # is classified where they use it
+            rep.info(f"{fi.qual}: new private helper, classified through its callers")
             continue
         clf = Classifier(P, fi)
         g = None
